@@ -272,7 +272,10 @@ def nat_strize(h):
         if k == 3:
             return datetime.date(2020, 1, 2)
         if k == 4:
-            return datetime.datetime(2020, 1, 2, 3, 4, 5)
+            # (with a fraction of a second, zone-aware east and west of Greenwich: the text must still denote the same instant)
+            return h.rng.choice([datetime.datetime(2020, 1, 2, 3, 4, 5), datetime.datetime(2020, 1, 2, 3, 4, 5, 678901),
+                                 datetime.datetime(2020, 1, 2, 10, 30, tzinfo=datetime.timezone(datetime.timedelta(hours=2))),
+                                 datetime.datetime(2020, 1, 2, 10, 30, 0, 5, tzinfo=datetime.timezone(datetime.timedelta(hours=-5, minutes=-30)))])
         if k == 5:
             return 'txt'
         if k == 6:
